@@ -36,6 +36,9 @@ CLAIMS = {
  "C11": ("property-based fault injection: generated (phase, in-flight traffic, way of ending) vs bounded-time release oracle (rapid)",
          "For each generated point of the exchange, traffic pattern and way of ending, the harness observes within 5 s: end-of-stream at the remote desktop host, closure of the client-facing connections by the gateway, no goroutine left inside the protocol package, the exported connection registry back to its size, the websocket/legacy gauges restored. In-process (goroutines, registry) and real binary (/metrics gauges, go_goroutines).",
          "4 C11"),
+ "C12": ("property-based testing of the real binary's download endpoint against a reference selection policy, an independent claim decoder and replay through the tunnel (rapid)",
+         "For generated instance configurations, sessions, host parameters and client addresses: unauthenticated => 302 to the IdP and no token; authenticated => 400 where the reference policy yields no host, otherwise a file (parsed by the harness's own grammar) naming the configured gateway and the policy's host, whose access token verifies under the configured key (harness's own HS256 verifier) with exactly the stated claims (host, user with/without domain, requesting address, the session's IdP access token, <= 5 min); host and token are then replayed through tunnel-create and channel-create from the same address to live listeners.",
+         "4 C12"),
  "C13": ("stateful (model-based) property-based testing of browser sessions against the real binary + fake OpenID provider with fault switches (rapid)",
          "A model says which cookie jar is authenticated (only a callback with a state this instance issued, an exchangeable code and an ID token that verifies and names a user); after every generated action GET /connect must answer 200 with a connection file iff the model says so, with the user name of the claim. Faults are injected at every point of the callback; cookies are mutated or taken from an instance with other keys. The thorough tier adds a real 125 s wait for the state expiry.",
          "4 C13"),
